@@ -235,8 +235,7 @@ class Intervals:
         if "*" in lhs[1] or any(not (isinstance(e, list) and e[0] == ".") for e in lhs[1]):
             # store through a pointer / into an element: forget address-taken locals
             if "*" in lhs[1]:
-                for k in [k for k in st if k[0] in self.addr_taken]:
-                    del st[k]
+                self.forget_addr_taken(st)
             return
         key = self.key_of(lhs)
         # evaluate the right-hand side in the state before the write
@@ -264,7 +263,7 @@ class Intervals:
         self.kill_eq(st, lhs[0])
         if not lhs[1] and rv["k"] == "use" and rv["op"]["k"] != "const" and not rv["op"]["p"][1] and ty_range(self.tys[lhs[0]]) is not None:
             src = rv["op"]["p"][0]
-            if src != lhs[0] and src not in self.addr_taken and lhs[0] not in self.addr_taken:
+            if src != lhs[0]:
                 st[("eq", lhs[0])] = st.get(("eq", src), src)
         if tup is not None:
             r, ov = tup
@@ -277,6 +276,12 @@ class Intervals:
             return
         if iv is not None and self.rng_of_key(key) is not None:
             st[key] = iv
+
+    def forget_addr_taken(self, st):
+        for k in [k for k in st if k[0] in self.addr_taken]:
+            del st[k]
+        for k in [k for k, v in st.items() if k[0] == "eq" and (k[1] in self.addr_taken or v in self.addr_taken)]:
+            del st[k]
 
     def kill_eq(self, st, l):
         for k in [k for k, v in st.items() if k[0] == "eq" and (k[1] == l or v == l)]:
@@ -294,8 +299,7 @@ class Intervals:
     def call(self, st, t):
         dest = t.get("dest")
         argiv = [self.op_iv(st, a) for a in t["args"]]
-        for k in [k for k in st if k[0] in self.addr_taken]:
-            del st[k]
+        self.forget_addr_taken(st)
         if dest:
             self.kill_eq(st, dest[0])
         if not dest or dest[1]:
@@ -367,8 +371,6 @@ class Intervals:
                 break
             if any(s["k"] == "assign" and s["lhs"][0] == src for s in stmts[di + 1:]):
                 break
-            if src in self.addr_taken:
-                break
             out.append(src)
             cur = src
         return out
@@ -397,7 +399,7 @@ class Intervals:
                     st[k] = meet(self.get(st, k), new)
                 return
             for l in set(self._aliases(b, None, o["p"][0])) | self.same_as(st, o["p"][0]):
-                if ty_range(self.tys[l]) is not None and l not in self.addr_taken:
+                if ty_range(self.tys[l]) is not None:
                     cur = self.get(st, (l, ()))
                     st[(l, ())] = meet(cur, new) if cur else new
         A = (ia[0], ia[1], ia[2], ia[3])
@@ -518,8 +520,7 @@ class Intervals:
             out.append((t["t"], s2))
         elif k == "drop":
             s2 = dict(st)
-            for kk in [kk for kk in s2 if kk[0] in self.addr_taken]:
-                del s2[kk]
+            self.forget_addr_taken(s2)
             out.append((t["t"], s2))
         elif k == "asm":
             for x in t.get("targets", []):
@@ -534,8 +535,7 @@ class Intervals:
             if s["k"] == "assign":
                 self.assign(st, s)
             elif s["k"] not in ("live", "dead"):
-                for k in [k for k in st if k[0] in self.addr_taken]:
-                    del st[k]
+                self.forget_addr_taken(st)
         return st
 
     def _join(self, old, new, widen):
